@@ -126,7 +126,8 @@ sx_make_symboln(const char *s, size_t len)
     if (node->data.symbol == NULL) {
         sxoom(__FILE__, __LINE__);
     }
-    strlcpy(node->data.symbol, s, n);
+    /* The input need not be NUL terminated; calloc() provides the terminator. */
+    memcpy(node->data.symbol, s, len);
     return node;
 }
 
